@@ -20,11 +20,14 @@ pub struct Variant {
     /// items (indices into printed items) moved into an ascent_source! block: (start, end)
     pub include_block: Option<(usize, usize)>,
     pub generic: bool,
+    /// packaging flags: "init-tls" (input relations declared as `relation r(..) = <expr>`), "redecl" (every
+    /// relation is declared twice, the first time with a bogus initialiser)
+    pub flags: Vec<String>,
 }
 impl Variant {
     pub fn plain(p: &Prog) -> Variant {
         Variant { label: "ascent".into(), prog: p.clone(), kind: MacroKind::Ascent, attrs: vec![], rel_map: (0..p.rels.len()).collect(),
-            var_names: Default::default(), include_block: None, generic: false }
+            var_names: Default::default(), include_block: None, generic: false, flags: vec![] }
     }
     pub fn with_kind(mut self, k: MacroKind, label: &str) -> Variant { self.kind = k; self.label = label.into(); self }
     pub fn is_par(&self) -> bool { matches!(self.kind, MacroKind::AscentPar | MacroKind::AscentRunPar) }
@@ -851,6 +854,49 @@ pub fn f_macro(thorough: bool) -> Vec<Unit> {
     units
 }
 
+// ------------------------------------------------------------------------------------------ F-pack
+fn has_consts(p: &Prog) -> bool { let txt = crate::print::Printer::new(p).program_text(); txt.contains("% ") || txt.contains("(0") || txt.contains(" 0)") || txt.contains("(1") || txt.contains(" 1)") || txt.contains("vfn::") || txt.contains(" as i32") || txt.contains("agg ") }
+
+/// packaging variants of a core set of programs
+pub fn f_pack(thorough: bool) -> Vec<Unit> {
+    let mut out = vec![];
+    for (i, u) in f_scc(false).into_iter().enumerate() { if i % (if thorough { 6 } else { 24 }) == 0 || u.tag == "scc-multihead" { out.push(u); } }
+    for u in f_lat(false) { if u.tag.ends_with("setu8") || (thorough && u.tag.ends_with("dualu32")) { out.push(u); } }
+    for (i, u) in f_agg(false).into_iter().enumerate() { if i % (if thorough { 8 } else { 24 }) == 0 { out.push(u); } }
+    for (i, u) in f_shape(false).into_iter().enumerate() { if i % (if thorough { 60 } else { 300 }) == 0 { out.push(u); } }
+    for u in out.iter_mut() {
+        u.variants.truncate(1);
+        let base = u.variants[0].clone();
+        let nitems = base.prog.rels.len() + base.prog.rules.len();
+        let mut vs = vec![base.clone()];
+        vs.push(base.clone().with_kind(MacroKind::AscentRun, "ascent_run"));
+        // the program text cut at every item boundary: prefix | ascent_source block | suffix
+        for i in 0..=nitems { for j in i..=nitems {
+            if !thorough && !(i == 0 || j == nitems || j == i || j == i + 1) { continue; }
+            let mut v = base.clone(); v.include_block = Some((i, j)); v.label = format!("include_source[{}..{}]", i, j); vs.push(v);
+        } }
+        for (kind, label) in [(MacroKind::AscentRun, "ascent_run+include_source"), (MacroKind::AscentPar, "ascent_par+include_source")] {
+            // (ascent_run: the declarations stay outside the block, they carry the initialisers from the captured locals)
+            let nrels = base.prog.rels.len();
+            let mut v = base.clone().with_kind(kind.clone(), label);
+            v.include_block = Some(if kind == MacroKind::AscentRun { (nrels, nitems) } else { (1.min(nitems), nitems.saturating_sub(1).max(1.min(nitems))) });
+            vs.push(v);
+        }
+        let mut v = base.clone(); v.flags.push("init-tls".into()); v.label = "initialised-relations".into(); vs.push(v);
+        let mut v = base.clone(); v.flags.push("init-tls".into()); v.flags.push("redecl".into()); v.label = "redeclared-relations".into(); vs.push(v);
+        for (attrs, label) in [(vec!["#![measure_rule_times]"], "measure_rule_times"), (vec!["#![generate_run_timeout]"], "generate_run_timeout"), (vec!["#![measure_rule_times]", "#![generate_run_timeout]"], "both-attributes")] {
+            let mut v = base.clone(); v.attrs = attrs.iter().map(|s| s.to_string()).collect(); v.label = label.into(); vs.push(v);
+        }
+        if !has_consts(&base.prog) && base.prog.rels.iter().all(|r| r.lat.is_none()) {
+            let mut v = base.clone(); v.generic = true; v.label = "generic-struct".into(); vs.push(v);
+            let mut v = base.clone(); v.generic = true; v.flags.push("impl-signature".into()); v.label = "generic-struct+impl-signature".into(); vs.push(v);
+        }
+        u.variants = vs;
+        u.tag = format!("pack:{}", u.tag);
+    }
+    out
+}
+
 pub fn units(family: &str, thorough: bool) -> Vec<Unit> {
     match family {
         "shape" => f_shape(thorough),
@@ -862,6 +908,7 @@ pub fn units(family: &str, thorough: bool) -> Vec<Unit> {
         "par" => f_par(thorough),
         "sugar" => f_sugar(thorough),
         "macro" => f_macro(thorough),
+        "pack" | "packseg" => f_pack(thorough),
         _ => panic!("unknown family {}", family),
     }
 }
